@@ -226,6 +226,81 @@ theorem lamMid_isCircumcentre (hs : Fin 2 → Fin n → K) : IsCircumcentre lamM
   · simp [nsq, dot]
   · simp only [Fin.mk_one, Fin.isValue]; unfold nsq; ring
 
+/-- vector identity: squared distance to a midpoint -/
+theorem nsq_sub_mid (h a b : Fin n → K) :
+    nsq (fun i => h i - (a i + b i) / 2)
+      = (nsq (fun i => h i - a i) + nsq (fun i => h i - b i)) / 2 - nsq (fun i => a i - b i) / 4 := by
+  have e : (fun i => (a i + b i) / 2) = fun i => (1 / 2) * a i + (1 / 2) * b i := by
+    funext i; ring
+  rw [nsq_sub, nsq_sub, nsq_sub, nsq_sub, e, nsq_lin, dot_lin_right]; ring
+
+/-- **half-space model, through the endpoints**: for two ideal points `k₁`, `k₂` (Klein =
+Poincaré coordinates) the sphere reported by `sphere_parameters(HALFSPACE)` — centre the midpoint
+of their half-space images, radius the distance to the first — passes through the half-space
+image of *every* point `x = t k₁ + (1-t) k₂` of the Klein chord, in particular through both
+endpoints of a segment on that geodesic (Thales: the images see `h₁h₂` under a right angle) -/
+theorem halfspace_chord (hr : IsSqrt r) (k₁ k₂ : Fin (n + 1) → K) (h₁ : nsq k₁ = 1)
+    (h₂ : nsq k₂ = 1) (hp₁ : poleDist k₁ ≠ 0) (hp₂ : poleDist k₂ ≠ 0) (t : K)
+    (hx : nsq (fun i => t * k₁ i + (1 - t) * k₂ i) ≤ 1)
+    (hpx : poleDist (k2p r fun i => t * k₁ i + (1 - t) * k₂ i) ≠ 0) :
+    let hs : Fin 2 → Fin (n + 1) → K := ![p2h k₁, p2h k₂]
+    nsq (fun i => p2h (k2p r fun i => t * k₁ i + (1 - t) * k₂ i) i
+        - (halfspaceSphere r lamMid hs).1 i) = (halfspaceSphere r lamMid hs).2 ^ 2 := by
+  intro hs
+  set x : Fin (n + 1) → K := fun i => t * k₁ i + (1 - t) * k₂ i with hxdef
+  have hb : 0 ≤ 1 - nsq x := by linarith
+  obtain ⟨hs0, hs1⟩ := hr (1 - nsq x) hb
+  have hpdef : k2p r x = fun i => x i * (1 / (1 + r (1 - nsq x))) := by
+    funext j; unfold k2p; rw [abs_of_nonneg hb]
+  generalize r (1 - nsq x) = s at hs0 hs1 hpdef
+  have hne : (1 + s) ≠ 0 := by linarith
+  have hxx : nsq x = 1 - s * s := by rw [hs1]; ring
+  -- centre and radius
+  have hc : (halfspaceSphere r lamMid hs).1 = fun i => (p2h k₁ i + p2h k₂ i) / 2 := by
+    show affComb lamMid hs = _
+    rw [affComb_lamMid]; rfl
+  have hrad : (halfspaceSphere r lamMid hs).2 ^ 2
+      = nsq (fun i => p2h k₁ i - p2h k₂ i) / 4 := by
+    show (r (nsq (fun i => hs 0 i - affComb lamMid hs i))) ^ 2 = _
+    rw [pow_two, (hr _ (nsq_nonneg _)).2, affComb_lamMid]
+    have : (fun i => hs 0 i - (hs 0 i + hs 1 i) / 2)
+        = fun i => (p2h k₁ i - p2h k₂ i) * (1 / 2) := by
+      funext i; show p2h k₁ i - (p2h k₁ i + p2h k₂ i) / 2 = _; ring
+    rw [this, nsq_smul]; ring
+  rw [hc, hrad, nsq_sub_mid, nsq_p2h_sub (k2p r x) k₁ hpx hp₁, nsq_p2h_sub (k2p r x) k₂ hpx hp₂,
+    nsq_p2h_sub k₁ k₂ hp₁ hp₂]
+  -- the three chordal distances and the three pole distances
+  have hxk₁ : dot x k₁ = t + (1 - t) * dot k₁ k₂ := by
+    rw [hxdef, dot_lin_left]; unfold nsq at h₁; rw [h₁, dot_comm k₂ k₁]; ring
+  have hxk₂ : dot x k₂ = t * dot k₁ k₂ + (1 - t) := by
+    rw [hxdef, dot_lin_left]; unfold nsq at h₂; rw [h₂]; ring
+  have hN₁ : nsq (fun i => k2p r x i - k₁ i) * (1 + s) = 2 * (1 - t) * (1 - dot k₁ k₂) := by
+    rw [nsq_sub, hpdef, nsq_smul, dot_smul_left, hxk₁, h₁, hxx]; field_simp; ring
+  have hN₂ : nsq (fun i => k2p r x i - k₂ i) * (1 + s) = 2 * t * (1 - dot k₁ k₂) := by
+    rw [nsq_sub, hpdef, nsq_smul, dot_smul_left, hxk₂, h₂, hxx]; field_simp; ring
+  have hN₁₂ : nsq (fun i => k₁ i - k₂ i) = 2 - 2 * dot k₁ k₂ := by
+    rw [nsq_sub, h₁, h₂]; ring
+  have hD₁ : poleDist k₁ = 2 * (1 - k₁ 0) := by rw [poleDist_eq, h₁]; ring
+  have hD₂ : poleDist k₂ = 2 * (1 - k₂ 0) := by rw [poleDist_eq, h₂]; ring
+  have hDp : poleDist (k2p r x) * (1 + s) = 2 * (1 - t * k₁ 0 - (1 - t) * k₂ 0) := by
+    rw [poleDist_eq, hpdef, nsq_smul, hxx]; simp only [hxdef]; field_simp; ring
+  -- express everything through the products with (1+s)
+  have e₁ : nsq (fun i => k2p r x i - k₁ i) = 2 * (1 - t) * (1 - dot k₁ k₂) / (1 + s) := by
+    rw [← hN₁]; field_simp
+  have e₂ : nsq (fun i => k2p r x i - k₂ i) = 2 * t * (1 - dot k₁ k₂) / (1 + s) := by
+    rw [← hN₂]; field_simp
+  have e₃ : poleDist (k2p r x) = 2 * (1 - t * k₁ 0 - (1 - t) * k₂ 0) / (1 + s) := by
+    rw [← hDp]; field_simp
+  have hq₃ : (1 - t * k₁ 0 - (1 - t) * k₂ 0) ≠ 0 := by
+    intro h0; apply hpx; rw [e₃, h0]; simp
+  have hq₁ : (1 - k₁ 0) ≠ 0 := by
+    intro h0; apply hp₁; rw [hD₁, h0]; ring
+  have hq₂ : (1 - k₂ 0) ≠ 0 := by
+    intro h0; apply hp₂; rw [hD₂, h0]; ring
+  rw [e₁, e₂, e₃, hN₁₂, hD₁, hD₂]
+  field_simp
+  ring
+
 /-! ## horospheres -/
 
 /-- `Horosphere.sphere_parameters(POINCARE)`: the sphere passes through the reference point,
@@ -311,6 +386,145 @@ theorem horosphere_halfspace (ideal ref : Fin (n + 1) → K) (hz : ref (Fin.last
       funext i; simp only [Fin.init]
       rw [hci' i]; ring
     rw [e1, hcl, hi]; simp [nsq, dot]
+
+/-! ## arc selection (dimension 2)
+
+`circle_angles` takes `arctan2` of the direction from the centre to a point; `short_arc`,
+`right_to_left` and `arc_include` are modelled as sign tests on those directions
+(`GT.Model.Circle`).  "The counter-clockwise arc from `a` to `b`" is, for `cross2 a b > 0`
+(extent `< π`), the set of directions `w` with `cross2 a w ≥ 0` and `cross2 w b ≥ 0`. -/
+
+/-- `short_arc` returns the two directions in an order whose counter-clockwise arc is the
+minor one: the pair is a permutation of the input and `sin(θ₁ - θ₀) ≥ 0` -/
+theorem shortArc_spec (u v : K × K) :
+    (shortArc u v = (u, v) ∨ shortArc u v = (v, u)) ∧
+      0 ≤ cross2 (shortArc u v).1 (shortArc u v).2 := by
+  have hanti : ∀ a b : K × K, cross2 b a = -cross2 a b := by intro a b; unfold cross2; ring
+  unfold shortArc
+  dsimp only
+  split_ifs with h1 h2 h2
+  · exact ⟨Or.inl rfl, by show 0 ≤ cross2 u v; rw [hanti]; linarith⟩
+  · exact ⟨Or.inr rfl, not_lt.1 h2⟩
+  · exact ⟨Or.inr rfl, by show 0 ≤ cross2 v u; rw [hanti]; linarith⟩
+  · exact ⟨Or.inl rfl, not_lt.1 h2⟩
+
+/-- `right_to_left` returns the pair ordered by decreasing cosine -/
+theorem rightToLeft_spec (u v : K × K) :
+    (rightToLeft u v = (u, v) ∨ rightToLeft u v = (v, u)) ∧
+      (rightToLeft u v).2.1 ≤ (rightToLeft u v).1.1 := by
+  unfold rightToLeft
+  split_ifs with h
+  · exact ⟨Or.inr rfl, h.le⟩
+  · exact ⟨Or.inl rfl, not_lt.1 h⟩
+
+/-- a point `c + w` of the circle of radius `ρ` about `c`, `|c|² = 1 + ρ²`, lies in the closed
+unit disk iff `w·c ≤ -ρ²` -/
+theorem inside_iff (c w : K × K) (ρ : K) (hc : dot2 c c = 1 + ρ ^ 2) (hw : dot2 w w = ρ ^ 2) :
+    dot2 (c.1 + w.1, c.2 + w.2) (c.1 + w.1, c.2 + w.2) ≤ 1 ↔ dot2 w c ≤ -ρ ^ 2 := by
+  unfold dot2 at *
+  constructor <;> intro h <;> nlinarith
+
+/-- **the arc inside the disk**: on a circle orthogonal to the unit circle, if the two ends
+`a`, `b` of a counter-clockwise arc of extent `< π` (`cross2 a b > 0`, which is what
+`short_arc` arranges) are inside the closed disk, every point of the arc is inside.  In
+particular the inside part of the circle is the minor arc between its two ideal points. -/
+theorem arc_between_inside (c a b w : K × K) (ρ : K) (hρ : 0 < ρ)
+    (ha : dot2 a a = ρ ^ 2) (hb : dot2 b b = ρ ^ 2) (hw : dot2 w w = ρ ^ 2)
+    (hab : 0 < cross2 a b) (haw : 0 ≤ cross2 a w) (hwb : 0 ≤ cross2 w b)
+    (hain : dot2 a c ≤ -ρ ^ 2) (hbin : dot2 b c ≤ -ρ ^ 2) : dot2 w c ≤ -ρ ^ 2 := by
+  -- w = λ a + μ b with λ = cross(w,b)/cross(a,b), μ = cross(a,w)/cross(a,b)
+  have hdec1 : cross2 a b * w.1 = cross2 w b * a.1 + cross2 a w * b.1 := by unfold cross2; ring
+  have hdec2 : cross2 a b * w.2 = cross2 w b * a.2 + cross2 a w * b.2 := by unfold cross2; ring
+  have hwc : cross2 a b * dot2 w c = cross2 w b * dot2 a c + cross2 a w * dot2 b c := by
+    unfold dot2; linear_combination c.1 * hdec1 + c.2 * hdec2
+  -- |w|² cross(a,b)² = |λ' a + μ' b|², and a·b ≤ ρ²
+  have hab_le : dot2 a b ≤ ρ ^ 2 := by
+    have : 0 ≤ (a.1 - b.1) ^ 2 + (a.2 - b.2) ^ 2 := by positivity
+    unfold dot2 at *; nlinarith
+  have hnorm : cross2 a b ^ 2 * ρ ^ 2
+      = cross2 w b ^ 2 * ρ ^ 2 + cross2 a w ^ 2 * ρ ^ 2
+        + 2 * cross2 w b * cross2 a w * dot2 a b := by
+    have : cross2 a b ^ 2 * dot2 w w
+        = (cross2 w b * a.1 + cross2 a w * b.1) ^ 2 + (cross2 w b * a.2 + cross2 a w * b.2) ^ 2 := by
+      rw [← hdec1, ← hdec2]; unfold dot2; ring
+    rw [hw] at this
+    rw [this]; unfold dot2 at ha hb ⊢
+    linear_combination (cross2 w b ^ 2) * ha + (cross2 a w ^ 2) * hb
+  have hsum : cross2 a b ≤ cross2 w b + cross2 a w := by
+    have hρ2 : 0 < ρ ^ 2 := by positivity
+    have h1 : cross2 a b ^ 2 * ρ ^ 2 ≤ (cross2 w b + cross2 a w) ^ 2 * ρ ^ 2 := by
+      rw [hnorm]
+      have : 0 ≤ cross2 w b * cross2 a w := mul_nonneg hwb haw
+      nlinarith
+    have h2 : cross2 a b ^ 2 ≤ (cross2 w b + cross2 a w) ^ 2 := le_of_mul_le_mul_right h1 hρ2
+    exact abs_le_of_sq_le_sq' h2 (by linarith) |>.2
+  have : cross2 a b * dot2 w c ≤ cross2 a b * (-ρ ^ 2) := by
+    rw [hwc]
+    have h1 : cross2 w b * dot2 a c ≤ cross2 w b * (-ρ ^ 2) := mul_le_mul_of_nonneg_left hain hwb
+    have h2 : cross2 a w * dot2 b c ≤ cross2 a w * (-ρ ^ 2) := mul_le_mul_of_nonneg_left hbin haw
+    have hρ2 : 0 < ρ ^ 2 := by positivity
+    nlinarith
+  exact le_of_mul_le_mul_left this hab
+
+/-- the half-plane analogue: between two directions of the closed upper half-plane (centre on
+the boundary) every direction of the counter-clockwise arc points into the closed upper
+half-plane -/
+theorem arc_between_upper (a b w : K × K) (hab : 0 < cross2 a b) (haw : 0 ≤ cross2 a w)
+    (hwb : 0 ≤ cross2 w b) (ha : 0 ≤ a.2) (hb : 0 ≤ b.2) : 0 ≤ w.2 := by
+  have hdec2 : cross2 a b * w.2 = cross2 w b * a.2 + cross2 a w * b.2 := by unfold cross2; ring
+  have : 0 ≤ cross2 a b * w.2 := by
+    rw [hdec2]; exact add_nonneg (mul_nonneg hwb ha) (mul_nonneg haw hb)
+  exact nonneg_of_mul_nonneg_right this hab
+
+/-- `right_to_left` on two directions of equal length in the closed upper half-plane orders
+them counter-clockwise (`cross ≥ 0`): right to left along the upper semicircle -/
+theorem rightToLeft_ccw (u v : K × K) (hl : dot2 u u = dot2 v v) (hu : 0 ≤ u.2) (hv : 0 ≤ v.2) :
+    0 ≤ cross2 (rightToLeft u v).1 (rightToLeft u v).2 := by
+  have key : ∀ a b : K × K, dot2 a a = dot2 b b → 0 ≤ a.2 → 0 ≤ b.2 → b.1 ≤ a.1 →
+      0 ≤ cross2 a b := by
+    intro a b hl ha hb h
+    unfold cross2; unfold dot2 at hl
+    rcases le_total 0 b.1 with hb1 | hb1
+    · -- 0 ≤ b₁ ≤ a₁: a₂ ≤ b₂
+      have : a.2 ≤ b.2 := by
+        by_contra hc; rw [not_le] at hc; nlinarith
+      nlinarith
+    · rcases le_total 0 a.1 with ha1 | ha1
+      · nlinarith [mul_nonneg ha1 hb, mul_nonneg ha (neg_nonneg.2 hb1)]
+      · -- b₁ ≤ a₁ ≤ 0: b₂ ≤ a₂
+        have : b.2 ≤ a.2 := by
+          by_contra hc; rw [not_le] at hc; nlinarith
+        nlinarith
+  unfold rightToLeft
+  split_ifs with h
+  · exact key v u hl.symm hv hu h.le
+  · exact key u v hl hu hv (not_lt.1 h)
+
+/-- the flipped `arc_include` of `HorosphereArc.circle_parameters` returns a permutation of
+the two directions -/
+theorem horoArc_perm (u v ref : K × K) :
+    horoArc u v ref = (u, v) ∨ horoArc u v ref = (v, u) := by
+  unfold horoArc arcInclude
+  dsimp only
+  split_ifs with h
+  · exact Or.inl rfl
+  · exact Or.inr rfl
+
+/-- every point of the reported circle is the Poincaré image of a point of the Klein
+hyperplane `x·m = |m|²` that contains the geodesic: a point `u` with `|u - c|² = ρ²`, where
+`c = m/|m|²` and `ρ² = |c|² - 1`, satisfies `p2k(u)·m = |m|²` — together with
+`arc_between_inside` the arc the angles bound lies on the hyperbolic geodesic -/
+theorem circle_point_on_geodesic (m u : Fin n → K) (h0 : 0 < nsq m)
+    (hu : nsq (fun i => u i - m i / nsq m) = nsq (fun i => m i / nsq m) - 1) :
+    dot (p2k u) m = nsq m := by
+  have hm0 : nsq m ≠ 0 := h0.ne'
+  have hu0 := nsq_nonneg u
+  have h1 : (1 + nsq u) ≠ 0 := by linarith
+  rw [nsq_sub, dot_div_right] at hu
+  have huc : dot u m = nsq m * (1 + nsq u) / 2 := by
+    field_simp at hu ⊢; linarith
+  unfold p2k
+  rw [dot_smul_left, huc]; field_simp
 
 end generic
 
